@@ -274,10 +274,15 @@ def do_check(mod, prop, tier, seed, scratch, a, t0):
     known = load_known(prop)
     known_open = [e for e in known if e.get("status") == "open"]
     open_keys = [e["key"] for e in known_open]
+    from .budgets import QUICK_SCALE
+
     for sc in mod.SUBCHECKS:
+        if sc.kind != "enum":
+            sc.quick = int(sc.quick * QUICK_SCALE.get(prop, 1))
         if a.scale != 1:
-            sc.quick = int(sc.quick * a.scale)
-            sc.thorough = int(sc.thorough * a.scale)
+            # enumerated sub-checks have a nominal budget of 1: keep them running under --scale
+            sc.quick = int(sc.quick * a.scale) if sc.kind != "enum" else sc.quick
+            sc.thorough = int(sc.thorough * a.scale) if sc.kind != "enum" else sc.thorough
     tasks = plan_tasks(mod, prop, tier, seed, a.only)
     results = run_tasks(tasks, scratch, open_keys, WALL_CAP[tier])
     kf_lines = run_probes(mod, prop, tier, seed, scratch, known_open)
